@@ -279,6 +279,7 @@ void World::on_syscall(const char *name) {
 	if (sigterm_at_call >= 0 && in_daemon && calls_in_turn == sigterm_at_call && !sigterm_sent) {
 		sigterm_at_call = -1; probe("sigterm_inside_batch");
 		sigterm_sent = true; for (auto &cl : clients) { cl.no_expect = true; cl.expq.clear(); }
+		mode = "none"; pend.clear();
 		if (g_kernel.sigterm_handler) g_kernel.sigterm_handler(15);
 	}
 }
@@ -342,7 +343,24 @@ long World::on_read(KFd &k, void *buf, size_t n) {
 	cl.in.feed(cl.rx.data() + cl.rx_off, m, cl.idx, ins);
 	cl.rx_off += m;
 	if (ins.size() > 1) probe("multi_message_read");
-	for (auto &in : ins) pend.push_back(in);
+	for (auto &in : ins) {
+		// in exact mode a batch is fed member by member (it must behave like its members sent one by one)
+		JV j;
+		const std::string &txt = in.t == Input::MSG ? in.text : in.wf.payload;
+		bool is_text = in.t == Input::MSG || (in.t == Input::WSFRAME && in.wf.fin && in.wf.opcode == 1 && in.wf.masked && in.wf.rsv == 0);
+		if (mode == "exact" && is_text && !txt.empty() && txt[0] == '[' && json_parse(txt, j) && j.t == JV::Arr) {
+			if (j.a.size() >= 3) probe("batch_len>=3");
+			probe("batch_expanded");
+			for (auto &m : j.a) {
+				Input mi; mi.c = in.c;
+				if (m.t == JV::Obj) { mi.t = Input::MSG; mi.text = m.dump(); pend.push_back(mi); }
+				else { mi.t = Input::DROP; mi.why = "batch member that is not an object"; pend.push_back(mi); break; }
+			}
+			continue;
+		}
+		if (mode == "exact" && in.t == Input::WSFRAME && is_text) { Input mi; mi.c = in.c; mi.t = Input::MSG; mi.text = txt; pend.push_back(mi); continue; }
+		pend.push_back(in);
+	}
 	if (!pend.empty()) feed_one_pending();
 	return (long)m;
 }
@@ -382,19 +400,23 @@ void World::on_close(KFd &k) {
 	if (k.kind == FD_STREAM) {
 		Client *cl = client_of(k);
 		if (cl) {
-			cl->daemon_closed = true;
 			if (sigterm_sent) { cl->expq.clear(); probe("closed_by_termination"); }
 			else if (mode == "exact" && !cl->no_expect) { if (!match_close(*cl)) {
 				violation("C02", "unexpected-close", "daemon closed connection c" + std::to_string(cl->idx) + " (" + cl->transport + ") although nothing it sent or suffered justifies that"); } }
 			else cl->expq.clear();
+			cl->daemon_closed = true;
 		}
 	} else if (k.kind == FD_TIMER) {
 		if (k.in_epoll) probe("timer_closed_while_registered");
-		if (mode == "exact") model.on_timer_closed(k.fd);
+		if (mode == "exact") {
+			if (k.armed_value == 0) while (!model.has_unbound_routed() && feed_one_pending()) {}
+			model.on_timer_closed(k.fd);
+		}
 	}
 }
 
 void World::on_timer_set(KFd &k, uint64_t ns) {
+	dbg("settime fd=%d ns=%llu", k.fd, (unsigned long long)ns);
 	trace.tag("settime"); trace.u64(k.fd); trace.u64(ns);
 	if (ns == 0) { k.armed = false; k.expirations = 0; probe("timer_disarmed"); return; }
 	k.armed = true; k.armed_value = ns; k.deadline = ns > (1ULL << 62) ? (1ULL << 62) + now : now + ns; k.expirations = 0;
